@@ -3,312 +3,1423 @@ package main
 import (
 	"fmt"
 	"go/token"
+	"go/types"
+	"sort"
 	"strings"
 
 	"golang.org/x/tools/go/ssa"
 )
 
 // C19 — SPIFFE.
+//
+// Every construct is resolved by ROLE through types and dataflow; the only
+// names used as anchors are exported ones (spiffe.SPIFFE, SPIFFE.Run,
+// SPIFFE.Ready, GetX509SVID of the x509svid.Source interface, x509svid.SVID
+// and its fields, dir.Dir.Write, pem.*, the standard library and
+// k8s.io/utils/clock):
+//
+//	svid field    the struct field of the package whose type is *x509svid.SVID
+//	lock          the mutex held at the stores of the svid field
+//	ready channel the channel-typed struct field Ready waits on
+//	fetcher       a function of the package returning (*x509svid.SVID, error)
+//	request call  the dynamic call (ctx, []byte) ([]*x509.Certificate, error)
+//	rotation code everything statically reachable from Run inside the package
+//
+// Rules follow same-package callees (static calls, closures, deferred calls)
+// in both directions: summaries downwards, call-site inference upwards.
 
 func init() { register("C19", checkC19) }
 
+type c19 struct {
+	c   *Ctx
+	r   *Report
+	p   *Prog
+	e   *LockEngine
+	pkg string
+	fns []*ssa.Function
+
+	inPkg      map[*ssa.Function]bool
+	svid       FieldID
+	ready      string // chanIdent of the readiness channel ("field:<type>.<name>")
+	readyName  string
+	lock       string
+	run        *ssa.Function
+	readyFn    *ssa.Function
+	getters    []*ssa.Function
+	fetchers   map[*ssa.Function]bool // return (*x509svid.SVID, error)
+	fetchTouch map[*ssa.Function]bool // fetcher or (transitively) calls one
+	reach      map[*ssa.Function]bool // statically reachable from Run inside the package
+	underFetch map[*ssa.Function]bool // reachable from a fetcher
+
+	closeSum   map[*ssa.Function]uint64
+	closeBusy  map[*ssa.Function]bool
+	closeSeen  map[*ssa.Function]bool
+	undSeen    map[string]bool
+	undList    []string
+	instrIDs   map[ssa.Instruction]int
+	certIDs    map[ssa.Value]int
+	waitsReady map[*ssa.Function]bool
+}
+
+func (x *c19) undecide(format string, args ...any) {
+	s := fmt.Sprintf(format, args...)
+	if x.undSeen[s] {
+		return
+	}
+	x.undSeen[s] = true
+	x.undList = append(x.undList, s)
+}
+
+// flushUndecided emits the collected reasons in a deterministic order.
+func (x *c19) flushUndecided() {
+	sort.Strings(x.undList)
+	for _, s := range x.undList {
+		x.r.Undecide("%s", s)
+	}
+	x.undList = nil
+}
+
+func (x *c19) pos(in ssa.Instruction) string { return x.p.Pos(instrPos(in)) }
+
+func (x *c19) name(fn *ssa.Function) string { return FuncName(x.p, fn) }
+
 func checkC19(c *Ctx) {
 	r, p := c.R, c.P
-	r.Explanation = "Decides structural necessary conditions of C19 on crypto/spiffe: (X1) no goroutine waits for readiness (receive on SPIFFE.readyCh) while holding SPIFFE.lock in a mode that conflicts with the lock every close(readyCh) runs under — the GetX509SVID/Run deadlock; (X2) after winning the running CAS, Run closes readyCh exactly once on every path (success and failed initial fetch); Ready waits on readyCh or the caller's context only; (X3) currentSVID is written only under the write lock and read under the lock, is stored on renewal only when the fetch returned no error, and GetX509SVID returns it (or an error when nil); (X4) the private key generated by THIS fetch flows to the CSR, to the SVID's PrivateKey and to key.pem, and key, chain and trust anchors are written by ONE dir.Write call; (X5) renewal point = notBefore + (notAfter-notBefore)/2, wake-up interval min(time.Minute, …), retry after 10*time.Second, all through the injected clock. NOT decided: the renewal law over all validity windows and failure sequences."
-	r.Assumptions = append(r.Assumptions, "type-based lock/channel identity", "ecdsa.GenerateKey returns a fresh key on every call (crypto/rand)")
-	r.Rule("C19.X1-ready-wait", "no wait on readyCh under a lock that every close(readyCh) needs", 1)
-	r.Rule("C19.X2-ready-once", "Run closes readyCh exactly once on every path after the CAS; Ready selects on readyCh/ctx", 2)
-	r.Rule("C19.X3-svid", "currentSVID guarded; renewal stores only on err==nil; GetX509SVID serves it", 4)
-	r.Rule("C19.X4-fresh-key", "this fetch's key flows to CSR, SVID.PrivateKey and key.pem; one dir.Write with key+chain+anchors", 2)
-	r.Rule("C19.X6-renewal-args", "renewalTime is always called with (cert.NotBefore, cert.NotAfter) of the same certificate", 2)
-	r.Rule("C19.X5-constants", "half-life renewal point; wake-up <= 1 minute; retry 10 s; injected clock", 3)
+	r.Explanation = "Decides structural necessary conditions of C19 on crypto/spiffe. Constructs are resolved by role (types + dataflow), not by unexported names: the SVID field is the struct field of type *x509svid.SVID, its lock the mutex held where it is stored, the readiness channel the channel field Ready waits on, a fetcher any function returning (*x509svid.SVID, error), the rotation code everything reachable from Run; same-package callees (static calls, closures, deferred calls) are followed by summaries, helpers' contexts by their call sites. " +
+		"(X1) no wait for readiness (receive or select on the readiness channel, directly or through a callee) happens while holding the SVID lock in a mode that conflicts with what every close of the channel needs (held at the close, or acquired on every path to it) — the GetX509SVID/Run deadlock; a select whose other cases are only context cancellation counts as a wait. " +
+		"(X2) on every path through Run on which the initial fetch was started the channel is closed exactly once (closes counted through callees and deferred calls); a return without close is only accepted before the fetch, behind the atomic compare-and-swap 'already running' guard; Ready selects on the channel and its context only. " +
+		"(X3) the SVID field is written only under the write lock and read under the lock; every value stored is result 0 of a fetcher call whose error is known nil (or the value known non-nil) at the store, followed through parameters of helpers to all their call sites; GetX509SVID returns a value loaded from the field. " +
+		"(X4) inside each top-level fetcher, by backward value provenance through helpers (context-sensitive): the CSR handed to the request call, the PrivateKey of the SVID built, and the key entry of the map given to the single dir.Write all derive from ONE key-generation call (crypto */GenerateKey) executed in this fetch, no key comes from a field/global; the SVID's Certificates and the chain entry derive from this request's result, and a third entry from CurrentTrustAnchors. " +
+		"(X5/X6) time values are evaluated to linear forms over {cert.NotBefore, cert.NotAfter, now} through helpers and loop phis: every renewal point the rotation code compares the clock with or sleeps towards is (1-a)*NotBefore + a*NotAfter of ONE certificate with a <= 1/2; every clock wait not on the error path is provably <= 1 minute (constant, min(), or a guarded clamp), every wait on the error path of a renewal is exactly 10 s; no time.Now/After/Sleep/NewTimer in the rotation code (injected clock). " +
+		"NOT decided: the renewal law over all validity windows and failure sequences (only its constants and wiring), that the certificate used for the renewal point is the leaf of the served SVID, the order of store and close inside the critical section."
+	r.Assumptions = append(r.Assumptions, "type-based lock/channel identity", "crypto GenerateKey functions return a fresh key on every call (crypto/rand)",
+		"unexported functions of crypto/spiffe are only called from the call sites visible in the package")
+	r.Rule("C19.X1-ready-wait", "no wait on the readiness channel under a lock that every close of it needs", 2)
+	r.Rule("C19.X2-ready-once", "Run closes the readiness channel exactly once on every path that started the fetch; Ready selects on it and ctx", 3)
+	r.Rule("C19.X3-svid", "SVID field guarded; stores only of successful fetch results; GetX509SVID serves it", 4)
+	r.Rule("C19.X4-fresh-key", "one key generated per fetch flows to CSR, SVID.PrivateKey and key file; one dir.Write with key+chain+anchors", 3)
+	r.Rule("C19.X6-renewal-args", "every renewal point is derived from NotBefore and NotAfter of one certificate", 1)
+	r.Rule("C19.X5-constants", "renewal point at or before half-life; wake-up <= 1 minute; retry 10 s; injected clock", 3)
 
-	pkg := p.ModPath + "/crypto/spiffe"
-	lockID := pkg + ".SPIFFE.lock"
-	ready := "field:" + pkg + ".SPIFFE.readyCh"
-	e := c.Locks()
-	fns := p.FuncsOfPkg("crypto/spiffe")
-	wg := NewWaitGraph(p, e, fns)
+	x := &c19{c: c, r: r, p: p, e: c.Locks(), pkg: p.ModPath + "/crypto/spiffe", fns: p.FuncsOfPkg("crypto/spiffe"),
+		inPkg: map[*ssa.Function]bool{}, undSeen: map[string]bool{}, instrIDs: map[ssa.Instruction]int{}, certIDs: map[ssa.Value]int{},
+		closeSum: map[*ssa.Function]uint64{}, closeBusy: map[*ssa.Function]bool{}, closeSeen: map[*ssa.Function]bool{}}
+	for _, fn := range x.fns {
+		x.inPkg[fn] = true
+	}
+	defer x.flushUndecided()
+	if !x.resolveRoles() {
+		return
+	}
+	x.checkX1()
+	x.checkX2()
+	x.checkX3()
+	x.checkX4()
+	x.checkX5()
+	x.flushUndecided()
 
-	// X1: every receive on readyCh
-	n := 0
-	for _, fn := range fns {
-		for _, op := range blockingOps(e, fn) {
-			usesReady := op.Kind == "recv" && op.Chan == ready
-			if op.Kind == "select" {
-				for _, cs := range op.Sel.Cases {
-					if cs.Chan == ready {
-						usesReady = true
-					}
-				}
+	// the file set is published by dir.Write: its crash-consistency rules (shared with C18)
+	c18RunWriterAs(c, "C19.DIR-")
+}
+
+// ---------------------------------------------------------------- roles
+
+func c19IsSVIDPtr(t types.Type) bool {
+	pt, ok := t.Underlying().(*types.Pointer)
+	if !ok {
+		return false
+	}
+	return strings.HasSuffix(namedKey(pt.Elem()), "/svid/x509svid.SVID")
+}
+
+func c19IsMutex(t types.Type) bool {
+	k := namedKey(t)
+	return k == "sync.RWMutex" || k == "sync.Mutex"
+}
+
+// pkgCallee: the statically known same-package callee of a call/defer/go.
+func (x *c19) pkgCallee(ci ssa.CallInstruction) *ssa.Function {
+	f := staticCallee(ci)
+	if f == nil || !x.inPkg[f] || len(f.Blocks) == 0 {
+		return nil
+	}
+	return f
+}
+
+// callers: the call sites of fn when they are all visible (unexported, never
+// used as a value).
+func (x *c19) callers(fn *ssa.Function) ([]callSite, bool) {
+	if fn == nil || isExportedFunc(fn) || x.e.addrTaken[fn] {
+		return nil, false
+	}
+	s := x.e.sites[fn]
+	return s, len(s) > 0
+}
+
+func (x *c19) resolveRoles() bool {
+	p, r := x.p, x.r
+	pkg := p.Pkg("crypto/spiffe")
+	x.run = p.Func("crypto/spiffe", "SPIFFE.Run")
+	x.readyFn = p.Func("crypto/spiffe", "SPIFFE.Ready")
+
+	// struct fields of the package by type
+	var svidFields []FieldID
+	var chanFields []FieldID
+	scope := pkg.Types.Scope()
+	names := scope.Names()
+	sort.Strings(names)
+	for _, n := range names {
+		tn, ok := scope.Lookup(n).(*types.TypeName)
+		if !ok {
+			continue
+		}
+		st, ok := tn.Type().Underlying().(*types.Struct)
+		if !ok {
+			continue
+		}
+		for i := 0; i < st.NumFields(); i++ {
+			f := st.Field(i)
+			id := FieldID{x.pkg + "." + n, f.Name()}
+			if c19IsSVIDPtr(f.Type()) {
+				svidFields = append(svidFields, id)
 			}
-			if !usesReady {
-				continue
+			if _, ok := f.Type().Underlying().(*types.Chan); ok {
+				chanFields = append(chanFields, id)
 			}
-			n++
-			construct := FuncName(p, fn) + " waits for readyCh"
-			ls := e.At(op.Instr)
-			bad := ""
-			for lock, mode := range ls {
-				rel := wg.Releasers(ready, true)
-				all := len(rel) > 0
-				for _, u := range rel {
-					if !wg.needsLock(u, lock, mode) {
-						all = false
-					}
-				}
-				if all && op.Kind == "recv" {
-					bad = "waits for readiness holding " + shortID(lock) + "(" + mode.String() + ") while every close(readyCh) runs under that lock: a consumer that gets the lock before Run blocks Run — and itself — forever"
-				}
-			}
-			r.Check(bad == "", "C19.X1-ready-wait", construct, p.Pos(instrPos(op.Instr)), "readiness is awaited without a lock that its signaller needs (held: "+ls.String()+")", bad)
 		}
 	}
-	if n == 0 {
-		r.Violation("C19.X1-ready-wait", "crypto/spiffe waits for readyCh", "-", "nothing waits for readiness any more: GetX509SVID/Ready would not block until the initial fetch finished")
+
+	// GetX509SVID implementations
+	for _, fn := range x.fns {
+		if fn.Parent() == nil && fn.Name() == "GetX509SVID" && fn.Signature.Recv() != nil {
+			x.getters = append(x.getters, fn)
+		}
+	}
+	if len(x.getters) == 0 {
+		undecided("anchor method GetX509SVID no longer resolves in crypto/spiffe")
 	}
 
-	// X2: Run closes readyCh exactly once on every path after the CAS
-	run := p.Func("crypto/spiffe", "SPIFFE.Run")
-	ff := &FlagFlow{Fn: run, Must: false, Entry: 1 << 0, Transfer: func(in ssa.Instruction, st uint64) uint64 {
-		if ci, ok := in.(ssa.CallInstruction); ok && builtinName(ci) == "close" && chanIdent(ci.Common().Args[0]) == ready {
-			return mapStates(st, func(s int) int {
-				if s < 2 {
-					return s + 1
+	// fetchers
+	x.fetchers = map[*ssa.Function]bool{}
+	for _, fn := range x.fns {
+		res := fn.Signature.Results()
+		if res.Len() == 2 && c19IsSVIDPtr(res.At(0).Type()) && isErrorType(res.At(1).Type()) && fn.Signature.Recv() != nil && fn.Name() == "GetX509SVID" {
+			continue // the consumer side
+		}
+		if res.Len() == 2 && c19IsSVIDPtr(res.At(0).Type()) && isErrorType(res.At(1).Type()) {
+			x.fetchers[fn] = true
+		}
+	}
+	// ... that actually fetch (issuer call / key generation inside): a reader of the served SVID with the same signature is not one
+	doesFetch := x.closure(x.startsFetchDirectly)
+	for fn := range x.fetchers {
+		if !doesFetch[fn] {
+			delete(x.fetchers, fn)
+		}
+	}
+	x.fetchTouch = x.closure(func(fn *ssa.Function) bool { return x.fetchers[fn] || x.startsFetchDirectly(fn) })
+	x.reach = x.reachableFrom(x.run)
+	x.underFetch = map[*ssa.Function]bool{}
+	for f := range x.fetchers {
+		for g := range x.reachableFrom(f) {
+			x.underFetch[g] = true
+		}
+	}
+
+	// SVID field
+	switch len(svidFields) {
+	case 0:
+		undecided("no struct field of type *x509svid.SVID in crypto/spiffe: the store of the served SVID is not recognised")
+	case 1:
+		x.svid = svidFields[0]
+	default:
+		// the one GetX509SVID serves
+		var cands []FieldID
+		for _, f := range svidFields {
+			x.svid = f
+			for _, g := range x.getters {
+				if x.returnsSVIDField(g) {
+					cands = append(cands, f)
+					break
 				}
-				return 2
+			}
+		}
+		if len(cands) != 1 {
+			undecided("%d struct fields of type *x509svid.SVID in crypto/spiffe and GetX509SVID does not single one out", len(svidFields))
+		}
+		x.svid = cands[0]
+	}
+
+	// lock: the mutex held (W) at the stores of the SVID field
+	held := map[string]int{}
+	nStores := 0
+	for _, st := range x.svidStores() {
+		nStores++
+		for id, m := range x.e.At(st) {
+			if m == ModeW {
+				held[id]++
+			}
+		}
+	}
+	if nStores == 0 {
+		r.Violation("C19.X3-svid", "crypto/spiffe stores of "+x.svid.String(), "-", "the served SVID field "+x.svid.String()+" is never stored: GetX509SVID can never serve a fetched SVID")
+		return false
+	}
+	best, bestN := "", 0
+	var ids []string
+	for id := range held {
+		ids = append(ids, id)
+	}
+	sort.Strings(ids)
+	for _, id := range ids {
+		if held[id] > bestN {
+			best, bestN = id, held[id]
+		}
+	}
+	if best == "" {
+		// no store is under any write lock: fall back to the mutex field next to the SVID field so that the guard rule reports the accesses
+		if st := structOf(p.Named("crypto/spiffe", "SPIFFE")); st != nil {
+			for i := 0; i < st.NumFields(); i++ {
+				if c19IsMutex(st.Field(i).Type()) {
+					best = x.pkg + ".SPIFFE." + st.Field(i).Name()
+					break
+				}
+			}
+		}
+		if best == "" {
+			undecided("no mutex guards the stores of %s: locking scheme not recognised", x.svid)
+		}
+	}
+	x.lock = best
+
+	// readiness channel: the channel field Ready waits on
+	want := map[string]bool{}
+	for _, f := range chanFields {
+		want["field:"+f.Type+"."+f.Field] = true
+	}
+	found := map[string]bool{}
+	for _, u := range x.awaitedFrom(x.readyFn) {
+		if u.field != "" && want[u.field] {
+			found[u.field] = true
+		}
+	}
+	var fl []string
+	for id := range found {
+		fl = append(fl, id)
+	}
+	sort.Strings(fl)
+	switch {
+	case len(fl) == 1:
+		x.ready = fl[0]
+	case len(fl) > 1:
+		undecided("Ready waits on %d channel fields: readiness channel not singled out", len(fl))
+	default:
+		// Ready waits on no channel field: take the channel field that Run closes
+		closed := map[string]bool{}
+		for fn := range x.reach {
+			for _, cs := range closeSites(fn) {
+				if id, ok := x.chanField(cs.Instr.(ssa.CallInstruction).Common().Args[0], 0); ok && want[id] {
+					closed[id] = true
+				}
+			}
+		}
+		if len(closed) == 1 {
+			for id := range closed {
+				x.ready = id
+			}
+		} else if len(chanFields) == 1 {
+			x.ready = "field:" + chanFields[0].Type + "." + chanFields[0].Field
+		} else {
+			undecided("readiness channel of SPIFFE not recognised (Ready waits on no channel field; %d channel fields)", len(chanFields))
+		}
+	}
+	x.readyName = x.ready[strings.LastIndex(x.ready, "/")+1:]
+	return true
+}
+
+// closure: the set of package functions satisfying base or (transitively)
+// calling, deferring or spawning one that does.
+func (x *c19) closure(base func(*ssa.Function) bool) map[*ssa.Function]bool {
+	m := map[*ssa.Function]bool{}
+	for _, fn := range x.fns {
+		if base(fn) {
+			m[fn] = true
+		}
+	}
+	for changed := true; changed; {
+		changed = false
+		for _, fn := range x.fns {
+			if m[fn] {
+				continue
+			}
+			allInstrs(fn, func(in ssa.Instruction) {
+				if ci, ok := in.(ssa.CallInstruction); ok && !m[fn] {
+					if cal := x.pkgCallee(ci); cal != nil && m[cal] {
+						m[fn] = true
+						changed = true
+					}
+				}
 			})
+		}
+	}
+	return m
+}
+
+// reachableFrom: package functions statically reachable from fn (calls,
+// defers, go statements, closures created there).
+func (x *c19) reachableFrom(fn *ssa.Function) map[*ssa.Function]bool {
+	m := map[*ssa.Function]bool{}
+	var walk func(f *ssa.Function)
+	walk = func(f *ssa.Function) {
+		if f == nil || m[f] || !x.inPkg[f] {
+			return
+		}
+		m[f] = true
+		allInstrs(f, func(in ssa.Instruction) {
+			if ci, ok := in.(ssa.CallInstruction); ok {
+				walk(x.pkgCallee(ci))
+			}
+			if mc, ok := in.(*ssa.MakeClosure); ok {
+				if g, ok := mc.Fn.(*ssa.Function); ok {
+					walk(g)
+				}
+			}
+			// bound methods / function values of the package used as values
+			for _, op := range in.Operands(nil) {
+				if op == nil || *op == nil {
+					continue
+				}
+				if g, ok := (*op).(*ssa.Function); ok {
+					walk(origin(g))
+				}
+			}
+		})
+	}
+	walk(fn)
+	return m
+}
+
+// c19IsRequestCall: the dynamic issuer call (ctx, csr []byte) ([]*x509.Certificate, error).
+func c19IsRequestCall(ci ssa.CallInstruction) bool {
+	cc := ci.Common()
+	if cc.IsInvoke() || staticCallee(ci) != nil {
+		return false
+	}
+	if _, ok := cc.Value.(*ssa.Builtin); ok {
+		return false
+	}
+	sig, ok := cc.Value.Type().Underlying().(*types.Signature)
+	if !ok || sig.Params().Len() != 2 || sig.Results().Len() != 2 {
+		return false
+	}
+	if namedKey(sig.Params().At(0).Type()) != "context.Context" {
+		return false
+	}
+	sl, ok := sig.Params().At(1).Type().Underlying().(*types.Slice)
+	if !ok || !types.Identical(sl.Elem(), types.Typ[types.Byte]) {
+		return false
+	}
+	rs, ok := sig.Results().At(0).Type().Underlying().(*types.Slice)
+	if !ok || namedKey(rs.Elem()) != "crypto/x509.Certificate" {
+		return false
+	}
+	return isErrorType(sig.Results().At(1).Type())
+}
+
+// c19IsKeyGen: a key-generation function of the standard library (crypto/*.GenerateKey).
+func c19IsKeyGen(ci ssa.CallInstruction) bool {
+	obj := calleeObj(ci)
+	return obj != nil && obj.Pkg() != nil && strings.HasPrefix(obj.Pkg().Path(), "crypto/") && obj.Name() == "GenerateKey"
+}
+
+// startsFetchDirectly: fn itself performs part of a fetch (issuer call or key generation).
+func (x *c19) startsFetchDirectly(fn *ssa.Function) bool {
+	found := false
+	allInstrs(fn, func(in ssa.Instruction) {
+		if ci, ok := in.(ssa.CallInstruction); ok && (c19IsRequestCall(ci) || c19IsKeyGen(ci)) {
+			found = true
+		}
+	})
+	return found
+}
+
+// chanField resolves a channel value to the struct field it was loaded from,
+// through temporaries, captured variables, accessor functions and parameters
+// of helpers (all call sites must agree). ok=false: not a field / not resolved.
+func (x *c19) chanField(v ssa.Value, depth int) (string, bool) {
+	if v == nil || depth > 6 {
+		return "", false
+	}
+	id := chanIdent(v)
+	if strings.HasPrefix(id, "field:") {
+		return id, true
+	}
+	agree := func(vals []ssa.Value) (string, bool) {
+		first := ""
+		for i, a := range vals {
+			id, ok := x.chanField(a, depth+1)
+			if !ok {
+				return "", false
+			}
+			if i == 0 {
+				first = id
+			} else if id != first {
+				return "", false
+			}
+		}
+		return first, first != ""
+	}
+	switch t := v.(type) {
+	case *ssa.ChangeType:
+		return x.chanField(t.X, depth+1)
+	case *ssa.Convert:
+		return x.chanField(t.X, depth+1)
+	case *ssa.Phi:
+		return agree(t.Edges)
+	case *ssa.UnOp:
+		if cell := cellOf(t.X); cell != nil {
+			var vals []ssa.Value
+			for _, rr := range refs(cell) {
+				if st, ok := rr.(*ssa.Store); ok && st.Addr == cell {
+					vals = append(vals, st.Val)
+				}
+			}
+			return agree(vals)
+		}
+	case *ssa.FreeVar:
+		if b := resolveFreeVar(t); b != nil {
+			return x.chanField(b, depth+1)
+		}
+	case *ssa.Call:
+		if cal := x.pkgCallee(t); cal != nil && cal.Signature.Results().Len() == 1 {
+			var vals []ssa.Value
+			allInstrs(cal, func(in ssa.Instruction) {
+				if ret, ok := in.(*ssa.Return); ok && len(ret.Results) == 1 {
+					vals = append(vals, unspill(ret.Results[0])...)
+				}
+			})
+			return agree(vals)
+		}
+	case *ssa.Parameter:
+		fn := t.Parent()
+		sites, ok := x.callers(fn)
+		if !ok {
+			return "", false
+		}
+		idx := -1
+		for i, pa := range fn.Params {
+			if pa == t {
+				idx = i
+			}
+		}
+		var vals []ssa.Value
+		for _, s := range sites {
+			args := s.instr.Common().Args
+			if idx < 0 || idx >= len(args) {
+				return "", false
+			}
+			vals = append(vals, args[idx])
+		}
+		return agree(vals)
+	}
+	return "", false
+}
+
+func (x *c19) isReady(v ssa.Value) bool {
+	id, ok := x.chanField(v, 0)
+	return ok && id == x.ready
+}
+
+// unresolvedChan: v is a channel of the readiness channel's element type whose
+// origin could not be resolved (so it might be the readiness channel).
+func (x *c19) unresolvedChan(v ssa.Value) bool {
+	if _, ok := x.chanField(v, 0); ok {
+		return false
+	}
+	id := chanIdent(v)
+	if strings.HasPrefix(id, "done:") || strings.HasPrefix(id, "timer:") || strings.HasPrefix(id, "make:") || strings.HasPrefix(id, "call:") {
+		return false
+	}
+	ch, ok := v.Type().Underlying().(*types.Chan)
+	if !ok {
+		return false
+	}
+	st, ok := ch.Elem().Underlying().(*types.Struct)
+	return ok && st.NumFields() == 0
+}
+
+// ---------------------------------------------------------------- X1
+
+type c19Wait struct {
+	fn      *ssa.Function
+	instr   ssa.Instruction
+	kind    string // recv | select | call
+	escapes bool   // a select with a case other than readiness / context cancellation
+	desc    string
+}
+
+func (x *c19) waitSites() []c19Wait {
+	var out []c19Wait
+	direct := map[*ssa.Function]bool{}
+	for _, fn := range x.fns {
+		for _, op := range blockingOps(x.e, fn) {
+			switch op.Kind {
+			case "recv":
+				ch := op.Instr.(*ssa.UnOp).X
+				if x.isReady(ch) {
+					out = append(out, c19Wait{fn: fn, instr: op.Instr, kind: "recv", desc: "receives from " + x.readyName})
+					direct[fn] = true
+				} else if _, isParam := c19StripChan(ch).(*ssa.Parameter); !isParam && x.unresolvedChan(ch) {
+					x.undecide("%s receives from a channel whose origin is not resolved (%s): it may be the readiness channel", x.name(fn), chanIdent(ch))
+				}
+			case "select":
+				has, esc := false, false
+				for _, cs := range op.Sel.Cases {
+					switch {
+					case x.isReady(cs.ChanV):
+						has = true
+					case strings.HasPrefix(cs.Chan, "done:"):
+					default:
+						esc = true
+					}
+				}
+				if has {
+					out = append(out, c19Wait{fn: fn, instr: op.Instr, kind: "select", escapes: esc, desc: "selects on " + x.readyName})
+					direct[fn] = true
+				}
+			}
+		}
+	}
+	x.waitsReady = x.closure(func(fn *ssa.Function) bool { return direct[fn] })
+	// helpers that wait on a channel handed in as a parameter: waitParam[fn][i]
+	// (escapes: the select has cases other than that channel / a context)
+	type pw struct{ escapes bool }
+	waitParam := map[*ssa.Function]map[int]pw{}
+	addPW := func(fn *ssa.Function, v ssa.Value, esc bool) bool {
+		pa, ok := c19StripChan(v).(*ssa.Parameter)
+		if !ok || pa.Parent() != fn {
+			return false
+		}
+		i := c19ParamIndex(pa)
+		if waitParam[fn] == nil {
+			waitParam[fn] = map[int]pw{}
+		}
+		if old, ok := waitParam[fn][i]; ok && (old.escapes || !esc) {
+			return false
+		}
+		waitParam[fn][i] = pw{esc}
+		return true
+	}
+	for _, fn := range x.fns {
+		for _, op := range blockingOps(x.e, fn) {
+			switch op.Kind {
+			case "recv":
+				addPW(fn, op.Instr.(*ssa.UnOp).X, false)
+			case "select":
+				for i, cs := range op.Sel.Cases {
+					esc := false
+					for j, o := range op.Sel.Cases {
+						if j != i && !strings.HasPrefix(o.Chan, "done:") {
+							esc = true
+						}
+					}
+					addPW(fn, cs.ChanV, esc)
+				}
+			}
+		}
+	}
+	for changed := true; changed; {
+		changed = false
+		for _, fn := range x.fns {
+			allInstrs(fn, func(in ssa.Instruction) {
+				call, ok := in.(*ssa.Call)
+				if !ok {
+					return
+				}
+				cal := x.pkgCallee(call)
+				if cal == nil {
+					return
+				}
+				for i, w := range waitParam[cal] {
+					if i < len(call.Call.Args) && addPW(fn, call.Call.Args[i], w.escapes) {
+						changed = true
+					}
+				}
+			})
+		}
+	}
+	for _, fn := range x.fns {
+		allInstrs(fn, func(in ssa.Instruction) {
+			call, ok := in.(*ssa.Call)
+			if !ok {
+				return
+			}
+			cal := x.pkgCallee(call)
+			if cal == nil {
+				return
+			}
+			if x.waitsReady[cal] {
+				out = append(out, c19Wait{fn: fn, instr: in, kind: "call", desc: "calls " + x.name(cal) + " (waits for " + x.readyName + ")"})
+				return
+			}
+			for i, w := range waitParam[cal] {
+				if i < len(call.Call.Args) && x.isReady(call.Call.Args[i]) {
+					out = append(out, c19Wait{fn: fn, instr: in, kind: "call", escapes: w.escapes, desc: "hands " + x.readyName + " to " + x.name(cal) + ", which waits on it,"})
+					break
+				}
+			}
+		})
+	}
+	return out
+}
+
+// c19StripChan removes channel direction conversions.
+func c19StripChan(v ssa.Value) ssa.Value {
+	for {
+		switch t := v.(type) {
+		case *ssa.ChangeType:
+			v = t.X
+		case *ssa.Convert:
+			v = t.X
+		default:
+			return v
+		}
+	}
+}
+
+// closerNeeds: the close site can only be reached by a goroutine that holds,
+// or has acquired on the way, lock id in a mode conflicting with waiterMode.
+func (x *c19) closerNeeds(in ssa.Instruction, id string, waiterMode Mode, depth int) bool {
+	conflicts := func(m Mode) bool { return m == ModeW || (m == ModeR && waiterMode == ModeW) }
+	if conflicts(x.e.At(in)[id]) {
+		return true
+	}
+	fn := in.Parent()
+	acquired := false
+	allInstrs(fn, func(j ssa.Instruction) {
+		call, ok := j.(*ssa.Call)
+		if !ok || acquired {
+			return
+		}
+		if lid, kind, ok := x.e.lockOp(call); ok && lid == id && (kind == opLock || (kind == opRLock && waiterMode == ModeW)) && instrDominates(call, in) {
+			acquired = true
+		}
+	})
+	if acquired {
+		return true
+	}
+	if depth > 4 {
+		return false
+	}
+	sites, ok := x.callers(fn)
+	if !ok {
+		return false
+	}
+	for _, s := range sites {
+		if _, isGo := s.instr.(*ssa.Go); isGo {
+			return false
+		}
+		if !x.closerNeeds(s.instr, id, waiterMode, depth+1) {
+			return false
+		}
+	}
+	return true
+}
+
+func (x *c19) readyCloseSites() []BlockingOp {
+	var out []BlockingOp
+	for _, fn := range x.fns {
+		for _, cs := range closeSites(fn) {
+			arg := cs.Instr.(ssa.CallInstruction).Common().Args[0]
+			if x.isReady(arg) {
+				out = append(out, cs)
+			} else if x.unresolvedChan(arg) {
+				x.undecide("%s closes a channel whose origin is not resolved (%s): it may be the readiness channel", x.name(fn), chanIdent(arg))
+			}
+		}
+	}
+	return out
+}
+
+func (x *c19) checkX1() {
+	r := x.r
+	closers := x.readyCloseSites()
+	sites := x.waitSites()
+	for _, w := range sites {
+		construct := x.name(w.fn) + " waits for " + x.readyName
+		if w.kind == "call" {
+			construct = x.name(w.fn) + " waits for " + x.readyName + " through " + x.name(x.pkgCallee(w.instr.(*ssa.Call)))
+		}
+		ls := x.e.At(w.instr)
+		bad := ""
+		var locks []string
+		for lock := range ls {
+			locks = append(locks, lock)
+		}
+		sort.Strings(locks)
+		for _, lock := range locks {
+			mode := ls[lock]
+			all := len(closers) > 0
+			for _, u := range closers {
+				if !x.closerNeeds(u.Instr, lock, mode, 0) {
+					all = false
+				}
+			}
+			if all && !w.escapes {
+				bad = w.desc + " holding " + shortID(lock) + "(" + mode.String() + ") while every close(" + x.readyName + ") needs that lock: a consumer that gets the lock before Run blocks Run — and itself — forever"
+			}
+		}
+		r.Check(bad == "", "C19.X1-ready-wait", construct, x.pos(w.instr), "readiness is awaited without a lock that its signaller needs (held: "+ls.String()+")", bad)
+	}
+	if len(sites) == 0 {
+		r.Violation("C19.X1-ready-wait", "crypto/spiffe waits for "+x.readyName, "-", "nothing waits for readiness any more: GetX509SVID/Ready would not block until the initial fetch finished")
+	}
+}
+
+// ---------------------------------------------------------------- X2
+
+// abstract state of the close-count flow: c = closes so far (0,1,2+),
+// p = registered deferred closes (0,1,2+), f = the fetch has been started.
+func c19St(c, p, f int) int { return c + 3*p + 9*f }
+
+func c19Un(s int) (c, p, f int) { return s % 3, (s / 3) % 3, s / 9 }
+
+func c19Sat2(n int) int {
+	if n > 2 {
+		return 2
+	}
+	return n
+}
+
+// summary bits: (dc, df) -> bit dc + 3*df
+func c19ApplySum(st uint64, sum uint64) uint64 {
+	var out uint64
+	for s := 0; s < 18; s++ {
+		if st&(1<<uint(s)) == 0 {
+			continue
+		}
+		c, p, f := c19Un(s)
+		for d := 0; d < 6; d++ {
+			if sum&(1<<uint(d)) == 0 {
+				continue
+			}
+			out |= 1 << uint(c19St(c19Sat2(c+d%3), p, f|d/3))
+		}
+	}
+	return out
+}
+
+// callCloseSum: the (closes, fetch started) effects a call instruction can have.
+func (x *c19) callCloseSum(ci ssa.CallInstruction) uint64 {
+	if builtinName(ci) == "close" && len(ci.Common().Args) == 1 {
+		if x.isReady(ci.Common().Args[0]) {
+			return 1 << 1
+		}
+		return 1 << 0
+	}
+	if c19IsRequestCall(ci) || c19IsKeyGen(ci) {
+		return 1 << 3
+	}
+	if cal := x.pkgCallee(ci); cal != nil {
+		return x.closeSummary(cal)
+	}
+	return 1 << 0
+}
+
+func (x *c19) closeSummary(fn *ssa.Function) uint64 {
+	if s, ok := x.closeSum[fn]; ok {
+		return s
+	}
+	if x.closeBusy[fn] {
+		x.undecide("%s is recursive: closes of %s on its paths are not counted", x.name(fn), x.readyName)
+		return 1 << 0
+	}
+	x.closeBusy[fn] = true
+	defer func() { x.closeBusy[fn] = false }()
+	x.closeSeen[fn] = true
+	var sum uint64
+	nret := 0
+	ff := x.closeFlow(fn)
+	ff.AtReturns(func(ret *ssa.Return, st uint64) {
+		nret++
+		for s := 0; s < 18; s++ {
+			if st&(1<<uint(s)) != 0 {
+				c, _, f := c19Un(s)
+				if x.fetchers[fn] {
+					f = 1
+				}
+				sum |= 1 << uint(c+3*f)
+			}
+		}
+	})
+	if nret == 0 {
+		sum = 1 << 0 // never returns normally
+	}
+	x.closeSum[fn] = sum
+	return sum
+}
+
+func (x *c19) closeFlow(fn *ssa.Function) *FlagFlow {
+	var deferSum uint64
+	var ff *FlagFlow
+	ff = &FlagFlow{Fn: fn, Must: false, Entry: 1 << uint(c19St(0, 0, 0)), Transfer: func(in ssa.Instruction, st uint64) uint64 {
+		switch t := in.(type) {
+		case *ssa.Defer:
+			if ff.Replaying {
+				return st
+			}
+			sum := x.callCloseSum(t)
+			if sum == 1<<0 {
+				return st
+			}
+			if deferSum != 0 && deferSum != sum {
+				x.undecide("%s defers several different calls that close %s / fetch: not modelled", x.name(fn), x.readyName)
+			}
+			deferSum = sum
+			return mapStates(st, func(s int) int { c, p, f := c19Un(s); return c19St(c, c19Sat2(p+1), f) })
+		case *ssa.RunDefers:
+			var out uint64
+			for s := 0; s < 18; s++ {
+				if st&(1<<uint(s)) == 0 {
+					continue
+				}
+				c, p, f := c19Un(s)
+				cur := uint64(1) << uint(c19St(c, 0, f))
+				for i := 0; i < p; i++ {
+					cur = c19ApplySum(cur, deferSum)
+				}
+				out |= cur
+			}
+			return out
+		case *ssa.Go:
+			if cal := x.pkgCallee(t); cal != nil {
+				if s := x.closeSummary(cal); s&^(1<<0|1<<3) != 0 {
+					x.undecide("%s closes %s in a goroutine started by %s: the order of closes is not decided", x.name(cal), x.readyName, x.name(fn))
+				}
+			}
+			return st
+		case *ssa.Call:
+			sum := x.callCloseSum(t)
+			if sum == 1<<0 {
+				return st
+			}
+			return c19ApplySum(st, sum)
 		}
 		return st
 	}}
 	ff.Run()
-	ok2, why2 := true, ""
-	nret := 0
-	ff.AtReturns(func(ret *ssa.Return, st uint64) {
-		nret++
-		// the "already running" return is the one dominated by the CAS-failed edge
-		casFailed := false
-		for _, dc := range domConds(ret.Block()) {
-			if call, val, ok := boolCallCond(dc.If.Cond, dc.Branch); ok && !val && calleeObj(call) != nil && calleeObj(call).Name() == "CompareAndSwap" {
-				casFailed = true
+	return ff
+}
+
+// onceGuard: block b is dominated by an edge of a test of an atomic
+// compare-and-swap / swap. won tells which side (known only for direct tests).
+func (x *c19) onceGuard(b *ssa.BasicBlock) (found, won, known bool) {
+	for _, dc := range domConds(b) {
+		call, val, ok := boolCallCond(dc.If.Cond, dc.Branch)
+		if !ok {
+			continue
+		}
+		obj := calleeObj(call)
+		if obj == nil {
+			continue
+		}
+		if obj.Pkg() != nil && obj.Pkg().Path() == "sync/atomic" {
+			switch {
+			case strings.HasPrefix(obj.Name(), "CompareAndSwap"):
+				return true, val, true
+			case strings.HasPrefix(obj.Name(), "Swap"):
+				return true, !val, true // Swap(true) returns the old value: false = this caller won
 			}
 		}
-		if casFailed {
-			if st != 1<<0 {
-				ok2, why2 = false, "the 'already running' path closes readyCh (second close panics)"
-			}
-			return
-		}
-		if st != 1<<1 {
-			ok2 = false
-			why2 = "a path through Run returns at " + p.Pos(ret.Pos()) + " having closed readyCh " + stateSetString(st&7) + " times (must be exactly once: zero leaves Ready/GetX509SVID blocked forever, twice panics)"
-		}
-	})
-	r.Check(ok2 && nret >= 2, "C19.X2-ready-once", "crypto/spiffe.SPIFFE.Run closes readyCh", p.Pos(run.Pos()), "readyCh closed exactly once on every path that won the CAS", why2)
-	// Ready
-	rd := p.Func("crypto/spiffe", "SPIFFE.Ready")
-	okR := false
-	for _, op := range blockingOps(e, rd) {
-		if op.Kind == "select" {
-			hasR, hasC := false, false
-			for _, cs := range op.Sel.Cases {
-				if cs.Chan == ready {
-					hasR = true
+		// a same-package helper whose result is such a test
+		if cal := x.pkgCallee(call); cal != nil {
+			isGuard := false
+			allInstrs(cal, func(in ssa.Instruction) {
+				if c2, ok := in.(*ssa.Call); ok {
+					if o := calleeObj(c2); o != nil && o.Pkg() != nil && o.Pkg().Path() == "sync/atomic" && (strings.HasPrefix(o.Name(), "CompareAndSwap") || strings.HasPrefix(o.Name(), "Swap")) {
+						isGuard = true
+					}
 				}
-				if strings.HasPrefix(cs.Chan, "done:") {
-					hasC = true
-				}
+			})
+			if isGuard {
+				return true, false, false
 			}
-			okR = hasR && hasC && len(op.Sel.Cases) == 2
 		}
 	}
-	r.Check(okR, "C19.X2-ready-once", "crypto/spiffe.SPIFFE.Ready", p.Pos(rd.Pos()), "Ready waits on readyCh or the caller's context", "Ready no longer waits exactly on {readyCh, ctx.Done()}")
+	return false, false, false
+}
 
-	// X3
-	svid := FieldID{pkg + ".SPIFFE", "currentSVID"}
-	CheckGuardedBy(p, e, r, "C19.X3-svid", []GuardSpec{{Field: svid, Lock: lockID}})
-	fetch := p.Func("crypto/spiffe", "SPIFFE.fetchIdentityCertificate")
-	for _, fn := range fns {
+func (x *c19) checkX2() {
+	r, p := x.r, x.p
+	run := x.run
+	ff := x.closeFlow(run)
+	x.closeSeen[run] = true
+	var bad, und []string
+	nret, nGood := 0, 0
+	uncounted := ""
+	for _, cs := range x.readyCloseSites() {
+		if !x.closeSeen[cs.Instr.Parent()] {
+			uncounted = x.name(cs.Instr.Parent())
+		}
+	}
+	ff.AtReturns(func(ret *ssa.Return, st uint64) {
+		nret++
+		found, won, known := x.onceGuard(ret.Block())
+		for s := 0; s < 18; s++ {
+			if st&(1<<uint(s)) == 0 {
+				continue
+			}
+			c, _, f := c19Un(s)
+			at := p.Pos(instrPos(ret))
+			switch {
+			case c == 2:
+				bad = append(bad, "a path through Run returning at "+at+" closes "+x.readyName+" more than once (the second close panics)")
+			case c == 0 && f == 1 && uncounted != "":
+				und = append(und, "Run returns at "+at+" without a counted close of "+x.readyName+", but "+uncounted+" closes it outside the statically followed calls")
+			case c == 0 && f == 1:
+				bad = append(bad, "a path through Run returns at "+at+" after the initial fetch was started without closing "+x.readyName+" (must be closed exactly once: otherwise Ready/GetX509SVID stay blocked forever)")
+			case c == 0 && f == 0:
+				if !found {
+					und = append(und, "Run returns at "+at+" before fetching and without closing "+x.readyName+", not behind an atomic compare-and-swap guard: 'already running' path not recognised")
+				} else if known && won {
+					bad = append(bad, "the caller that won the 'running' guard returns at "+at+" without fetching and without closing "+x.readyName)
+				}
+			case c == 1:
+				if found && known && !won {
+					bad = append(bad, "the 'already running' path returning at "+at+" closes "+x.readyName+" (a second Run panics on the closed channel)")
+				} else if f == 1 {
+					nGood++
+				}
+			}
+		}
+	})
+	// every close of the channel must have been counted
+	for _, cs := range x.readyCloseSites() {
+		if !x.closeSeen[cs.Instr.Parent()] {
+			x.undecide("%s closes %s but is not on a statically followed call path from Run: the closes on Run's paths are not counted", x.name(cs.Instr.Parent()), x.readyName)
+		}
+	}
+	for _, u := range und {
+		x.undecide("%s", u)
+	}
+	sort.Strings(bad)
+	why := strings.Join(bad, "; ")
+	if len(bad) == 0 && nGood == 0 {
+		if len(und) == 0 && nret > 0 {
+			why = "no path through Run fetches the initial identity and then closes " + x.readyName
+			bad = append(bad, why)
+		}
+	}
+	r.Check(len(bad) == 0, "C19.X2-ready-once", "crypto/spiffe.SPIFFE.Run closes "+x.readyName, p.Pos(run.Pos()), x.readyName+" closed exactly once on every path that started the initial fetch (closes counted through callees and deferred calls)", why)
+	r.OK("C19.X2-ready-once", "crypto/spiffe.SPIFFE.Run returns", p.Pos(run.Pos()), fmt.Sprintf("%d return paths examined", nret))
+
+	// Ready: a select on {readiness, ctx.Done()} in Ready or a callee
+	okR, sawWait, unres, other := false, false, false, ""
+	bySel := map[int][]c19ChanUse{}
+	var order []int
+	for _, u := range x.awaitedFrom(x.readyFn) {
+		if _, ok := bySel[u.sel]; !ok {
+			order = append(order, u.sel)
+		}
+		bySel[u.sel] = append(bySel[u.sel], u)
+	}
+	for _, k := range order {
+		us := bySel[k]
+		hasR, hasC, extra := false, false, false
+		for _, u := range us {
+			switch {
+			case u.field == x.ready:
+				hasR = true
+			case u.done:
+				hasC = true
+			default:
+				extra = true
+				if u.unres {
+					unres = true
+				}
+			}
+		}
+		if !hasR {
+			continue
+		}
+		sawWait = true
+		switch {
+		case hasC && !extra:
+			okR = true
+		case len(us) == 1:
+			other = "plain receive (the caller's context is ignored)"
+		default:
+			other = "select with other cases"
+		}
+	}
+	msg := "Ready no longer waits exactly on {" + x.readyName + ", ctx.Done()}"
+	if sawWait && !okR {
+		msg += " (" + other + ")"
+	}
+	if !okR && !sawWait && unres {
+		r.OK("C19.X2-ready-once", "crypto/spiffe.SPIFFE.Ready", p.Pos(x.readyFn.Pos()), "Ready examined")
+		x.undecide("Ready waits on a channel whose origin is not resolved: whether it is %s is not decided", x.readyName)
+	} else {
+		r.Check(okR, "C19.X2-ready-once", "crypto/spiffe.SPIFFE.Ready", p.Pos(x.readyFn.Pos()), "Ready waits on "+x.readyName+" or the caller's context", msg)
+	}
+}
+
+// ---------------------------------------------------------------- X3
+
+func (x *c19) svidStores() []*ssa.Store {
+	var out []*ssa.Store
+	for _, fn := range x.fns {
 		allInstrs(fn, func(in ssa.Instruction) {
 			st, ok := in.(*ssa.Store)
 			if !ok {
 				return
 			}
 			fa, ok := st.Addr.(*ssa.FieldAddr)
-			if !ok || fieldIDOfAddr(fa) != svid || isFreshBase(fa.X) {
+			if !ok || fieldIDOfAddr(fa) != x.svid || isFreshBase(fa.X) {
 				return
 			}
-			// the stored value is result 0 of a fetch call whose error is known nil here
-			construct := FuncName(p, fn) + " stores currentSVID"
-			ex, isEx := st.Val.(*ssa.Extract)
-			okS := false
-			if isEx {
-				if call, isCall := ex.Tuple.(*ssa.Call); isCall && staticCallee(call) == fetch && ex.Index == 0 {
-					if errv := callResult(call, 1); errv != nil && errKnownNil(st.Block(), errv) {
-						okS = true
-					}
-				}
-			}
-			r.Check(okS, "C19.X3-svid", construct, p.Pos(st.Pos()), "stores the SVID of a fetch whose error was checked nil", "currentSVID is overwritten with something other than the result of a successful fetch (a failed renewal must not disturb the served SVID)")
+			out = append(out, st)
 		})
 	}
-	gx := p.Func("crypto/spiffe", "svidSource.GetX509SVID")
-	okG := false
-	allInstrs(gx, func(in ssa.Instruction) {
-		if ret, ok := in.(*ssa.Return); ok && len(ret.Results) == 2 {
+	return out
+}
+
+// c19InCell: v is stored into a local variable cell (named result / captured variable).
+func c19InCell(v ssa.Value) bool {
+	for _, rr := range refs(v) {
+		if st, ok := rr.(*ssa.Store); ok && st.Val == v {
+			if _, ok := st.Addr.(*ssa.Alloc); ok {
+				return true
+			}
+		}
+	}
+	return false
+}
+
+// c19ErrKnown: at block b the error value errv is known nil (wantNil) or
+// non-nil, also when it travels through a variable cell: the test loads the
+// cell, errv's store dominates that load and no other store of the cell can
+// execute in between (stores by deferred closures run at function exit).
+func c19ErrKnown(b *ssa.BasicBlock, errv ssa.Value, wantNil bool) bool {
+	if (wantNil && errKnownNil(b, errv)) || (!wantNil && errKnownNonNil(b, errv)) {
+		return true
+	}
+	wantOp := token.NEQ
+	if wantNil {
+		wantOp = token.EQL
+	}
+	after := func(a, c ssa.Instruction) bool { // c can execute after a
+		if a.Block() == c.Block() && instrIndex(a) < instrIndex(c) {
+			return true
+		}
+		for _, s := range a.Block().Succs {
+			if reachableFrom(s, nil)[c.Block()] {
+				return true
+			}
+		}
+		return false
+	}
+	for _, rr := range refs(errv) {
+		st, ok := rr.(*ssa.Store)
+		if !ok || st.Val != errv {
+			continue
+		}
+		cell, ok := st.Addr.(*ssa.Alloc)
+		if !ok {
+			continue
+		}
+		for _, dc := range domConds(b) {
+			cmp, ok := decodeCond(dc.If.Cond, dc.Branch)
+			if !ok || cmp.Op != wantOp {
+				continue
+			}
+			var o ssa.Value
+			switch {
+			case isNilConst(cmp.Y):
+				o = cmp.X
+			case isNilConst(cmp.X):
+				o = cmp.Y
+			default:
+				continue
+			}
+			ld, ok := o.(*ssa.UnOp)
+			if !ok || ld.Op != token.MUL || ld.X != ssa.Value(cell) || !instrDominates(st, ld) {
+				continue
+			}
+			clean := true
+			for _, r2 := range refs(cell) {
+				s2, ok := r2.(*ssa.Store)
+				if !ok || s2 == st || s2.Addr != ssa.Value(cell) {
+					continue
+				}
+				if after(st, s2) && after(s2, ld) {
+					clean = false
+				}
+			}
+			if clean {
+				return true
+			}
+		}
+	}
+	return false
+}
+
+func c19ValKnownNonNil(b *ssa.BasicBlock, v ssa.Value) bool {
+	return errKnownNonNil(b, v)
+}
+
+// goodSVID: v (used in block at) is the first result of a fetcher call that is
+// known to have succeeded. Returns ok, or a reason; definite=false when the
+// provenance could not be followed (UNDECIDED rather than VIOLATION).
+func (x *c19) goodSVID(v ssa.Value, at *ssa.BasicBlock, depth int, seen map[ssa.Value]bool) (ok bool, definite bool, why string) {
+	if depth > 6 {
+		return false, false, "provenance too deep"
+	}
+	if _, isPhi := v.(*ssa.Phi); isPhi {
+		if seen[v] {
+			return true, true, "" // a cycle through a loop variable: decided by the other edges
+		}
+		seen[v] = true
+		defer func() {
+			if !ok {
+				delete(seen, v)
+			}
+		}()
+	}
+	switch t := v.(type) {
+	case *ssa.Const:
+		if t.IsNil() {
+			return false, true, "nil is stored"
+		}
+	case *ssa.Extract:
+		call, isCall := t.Tuple.(*ssa.Call)
+		if !isCall {
+			break
+		}
+		cal := x.pkgCallee(call)
+		if cal == nil || !x.fetchers[cal] || t.Index != 0 {
+			break
+		}
+		errv := callResult(call, 1)
+		if errv != nil && c19ErrKnown(at, errv, true) {
+			return true, true, ""
+		}
+		if c19ValKnownNonNil(at, v) && x.fetcherNilOnError(cal) {
+			return true, true, ""
+		}
+		if errv != nil && c19InCell(errv) {
+			return false, false, "the error of " + x.name(cal) + " is kept in a variable cell that is written at several places: its value at the store is not followed"
+		}
+		return false, true, "the result of " + x.name(cal) + " is stored without its error being known nil"
+	case *ssa.Phi:
+		for i, e := range t.Edges {
+			blk := at
+			if i < len(t.Block().Preds) {
+				blk = t.Block().Preds[i]
+			}
+			// facts established after the phi (at the store) also hold
+			if ok, _, _ := x.goodSVID(e, at, depth+1, seen); ok {
+				continue
+			}
+			if ok, def, why := x.goodSVID(e, blk, depth+1, seen); !ok {
+				return false, def, why
+			}
+		}
+		return true, true, ""
+	case *ssa.ChangeType:
+		return x.goodSVID(t.X, at, depth+1, seen)
+	case *ssa.UnOp:
+		if cell, isCell := t.X.(*ssa.Alloc); isCell {
+			n := 0
+			for _, rr := range refs(cell) {
+				if st, isSt := rr.(*ssa.Store); isSt && st.Addr == cell {
+					n++
+					if ok, _, _ := x.goodSVID(st.Val, at, depth+1, seen); ok {
+						continue
+					}
+					if ok, def, why := x.goodSVID(st.Val, st.Block(), depth+1, seen); !ok {
+						return false, def, why
+					}
+				}
+			}
+			if n > 0 {
+				return true, true, ""
+			}
+		}
+		if id, _, isField := fieldOfValue(t); isField {
+			return false, false, "a value loaded from " + id.String() + " is stored"
+		}
+	case *ssa.Parameter:
+		fn := t.Parent()
+		sites, complete := x.callers(fn)
+		if !complete {
+			return false, false, "parameter " + t.Name() + " of " + x.name(fn) + " (callers not all visible)"
+		}
+		idx := -1
+		for i, pa := range fn.Params {
+			if pa == t {
+				idx = i
+			}
+		}
+		for _, s := range sites {
+			args := s.instr.Common().Args
+			if idx < 0 || idx >= len(args) {
+				return false, false, "call site of " + x.name(fn) + " not understood"
+			}
+			if _, isCall := s.instr.(*ssa.Call); !isCall {
+				return false, false, x.name(fn) + " is deferred or spawned: the facts at its execution are not those of the call site"
+			}
+			if ok, def, why := x.goodSVID(args[idx], s.instr.Block(), depth+1, map[ssa.Value]bool{}); !ok {
+				return false, def, why + " (argument of " + x.name(fn) + " at " + x.pos(s.instr) + ")"
+			}
+		}
+		return true, true, ""
+	}
+	return false, false, "a value of unrecognised provenance (" + v.String() + ") is stored"
+}
+
+// fetcherNilOnError: every return of the fetcher with a possibly non-nil error
+// returns a nil SVID (so a non-nil SVID implies success).
+func (x *c19) fetcherNilOnError(fn *ssa.Function) bool {
+	ok := true
+	allInstrs(fn, func(in ssa.Instruction) {
+		ret, isRet := in.(*ssa.Return)
+		if !isRet || len(ret.Results) != 2 {
+			return
+		}
+		for _, e := range unspill(ret.Results[1]) {
+			if isNilConst(e) {
+				continue
+			}
 			for _, v := range unspill(ret.Results[0]) {
-				if id, _, ok := fieldOfValue(v); ok && id == svid {
-					okG = true
+				if !isNilConst(v) {
+					ok = false
 				}
 			}
 		}
 	})
-	r.Check(okG, "C19.X3-svid", "crypto/spiffe.svidSource.GetX509SVID returns", p.Pos(gx.Pos()), "returns SPIFFE.currentSVID", "GetX509SVID no longer returns the current SVID read from SPIFFE.currentSVID")
+	return ok
+}
 
-	// X4 fresh key
-	var gen *ssa.Call
-	allInstrs(fetch, func(in ssa.Instruction) {
-		if call, ok := in.(*ssa.Call); ok && callIs(call, "crypto/ecdsa", "", "GenerateKey") {
-			gen = call
+// returnsSVIDField: some return of fn yields a value loaded from the SVID
+// field (directly, through the result spill of deferred functions, a phi, or
+// a same-package helper returning it).
+func (x *c19) returnsSVIDField(fn *ssa.Function) bool {
+	var fromField func(v ssa.Value, depth int) bool
+	fromField = func(v ssa.Value, depth int) bool {
+		if depth > 5 {
+			return false
 		}
-	})
-	if gen == nil {
-		r.Violation("C19.X4-fresh-key", "crypto/spiffe.SPIFFE.fetchIdentityCertificate key", p.Pos(fetch.Pos()), "fetch no longer generates a private key with ecdsa.GenerateKey (a key reused across fetches)")
-	} else {
-		key := callResult(gen, 0)
-		toCSR, toSVID, toPEM := false, false, false
-		for _, rr := range refs(key) {
-			switch x := rr.(type) {
-			case *ssa.MakeInterface:
-				for _, r2 := range refs(x) {
-					if call, ok := r2.(*ssa.Call); ok {
-						if callIs(call, "crypto/x509", "", "CreateCertificateRequest") {
-							toCSR = true
-						}
+		for _, u := range unspill(v) {
+			if id, _, ok := fieldOfValue(u); ok && id == x.svid {
+				return true
+			}
+			switch t := u.(type) {
+			case *ssa.Phi:
+				for _, e := range t.Edges {
+					if fromField(e, depth+1) {
+						return true
 					}
-					if st, ok := r2.(*ssa.Store); ok {
-						if fa, ok := st.Addr.(*ssa.FieldAddr); ok && fieldIDOfAddr(fa).Field == "PrivateKey" {
-							toSVID = true
-						}
+				}
+			case *ssa.ChangeType:
+				if fromField(t.X, depth+1) {
+					return true
+				}
+			case *ssa.UnOp:
+				if _, isCell := t.X.(*ssa.Alloc); isCell && u != v {
+					if fromField(u, depth+1) {
+						return true
 					}
-					if call, ok := r2.(*ssa.Call); ok && calleeObj(call) != nil && calleeObj(call).Name() == "EncodePrivateKey" {
-						toPEM = true
+				}
+			case *ssa.Extract:
+				if call, ok := t.Tuple.(*ssa.Call); ok {
+					if cal := x.pkgCallee(call); cal != nil {
+						found := false
+						allInstrs(cal, func(in ssa.Instruction) {
+							if ret, ok := in.(*ssa.Return); ok && t.Index < len(ret.Results) && fromField(ret.Results[t.Index], depth+1) {
+								found = true
+							}
+						})
+						if found {
+							return true
+						}
 					}
 				}
 			case *ssa.Call:
-				if calleeObj(x) != nil && calleeObj(x).Name() == "EncodePrivateKey" {
-					toPEM = true
+				if cal := x.pkgCallee(t); cal != nil && cal.Signature.Results().Len() == 1 {
+					found := false
+					allInstrs(cal, func(in ssa.Instruction) {
+						if ret, ok := in.(*ssa.Return); ok && len(ret.Results) == 1 && fromField(ret.Results[0], depth+1) {
+							found = true
+						}
+					})
+					if found {
+						return true
+					}
 				}
 			}
 		}
-		r.Check(toCSR && toSVID && toPEM, "C19.X4-fresh-key", "crypto/spiffe.SPIFFE.fetchIdentityCertificate key", p.Pos(gen.Pos()), "the key generated by this fetch signs the CSR, is the SVID's PrivateKey and is what key.pem encodes", "the freshly generated key does not reach all of {CSR, SVID.PrivateKey, key.pem}: certificate and published key can disagree")
-		// single dir.Write with 3 map entries
-		nw, nUpd := 0, 0
-		allInstrs(fetch, func(in ssa.Instruction) {
-			if call, ok := in.(*ssa.Call); ok && calleeObj(call) != nil && calleeObj(call).Name() == "Write" && calleeObj(call).Pkg() != nil && strings.HasSuffix(calleeObj(call).Pkg().Path(), "/concurrency/dir") {
-				nw++
-				if mm, ok := call.Call.Args[1].(*ssa.MakeMap); ok {
-					for _, r2 := range refs(mm) {
-						if _, ok := r2.(*ssa.MapUpdate); ok {
-							nUpd++
-						}
-					}
-				}
-			}
-		})
-		r.Check(nw == 1 && nUpd == 3, "C19.X4-fresh-key", "crypto/spiffe.SPIFFE.fetchIdentityCertificate one file set", p.Pos(fetch.Pos()), "key, chain and trust anchors are published by one dir.Write call", "key, certificate chain and trust anchors are no longer written as ONE file set by a single dir.Write (readers could pair a new key with an old chain)")
+		return false
 	}
-
-	// X6: every call of renewalTime gets NotBefore/NotAfter of one certificate
-	rtFn := p.Func("crypto/spiffe", "renewalTime")
-	nCalls := 0
-	for _, fn := range fns {
-		allInstrs(fn, func(in ssa.Instruction) {
-			call, ok := in.(*ssa.Call)
-			if !ok || staticCallee(call) != rtFn {
-				return
-			}
-			nCalls++
-			okArgs := false
-			a0, _, ok0 := fieldOfValue(call.Call.Args[0])
-			a1, _, ok1 := fieldOfValue(call.Call.Args[1])
-			if ok0 && ok1 && a0.Field == "NotBefore" && a1.Field == "NotAfter" && a0.Type == "crypto/x509.Certificate" && a1.Type == "crypto/x509.Certificate" {
-				// same certificate value
-				_, fa0, _ := fieldOfValue(call.Call.Args[0])
-				_, fa1, _ := fieldOfValue(call.Call.Args[1])
-				if fa0 != nil && fa1 != nil && sameCertValue(fa0.X, fa1.X) {
-					okArgs = true
-				}
-			}
-			r.Check(okArgs, "C19.X6-renewal-args", fmt.Sprintf("%s renewalTime call #%d", FuncName(p, fn), nCalls), p.Pos(call.Pos()),
-				"renewal point computed from the certificate's own NotBefore and NotAfter",
-				"renewalTime is not called with (cert.NotBefore, cert.NotAfter) of the current certificate (e.g. the current time instead of NotBefore): renewal is requested later than half of the validity for back-dated certificates")
-		})
-	}
-	if nCalls == 0 {
-		r.Violation("C19.X6-renewal-args", "crypto/spiffe renewalTime calls", p.Pos(rtFn.Pos()), "renewalTime is never called: the renewal point is not derived from the certificate's validity")
-	}
-
-	// the file set is published by dir.Write: its crash-consistency rules (shared with C18)
-	c18RunWriterAs(c, "C19.DIR-")
-
-	// X5 constants
-	rt := p.Func("crypto/spiffe", "renewalTime")
-	okHalf := false
-	allInstrs(rt, func(in ssa.Instruction) {
-		if bo, ok := in.(*ssa.BinOp); ok && bo.Op == token.QUO {
-			if k, ok := bo.Y.(*ssa.Const); ok && k.Value != nil && k.Int64() == 2 {
-				if sub, ok := bo.X.(*ssa.Call); ok && callIs(sub, "time", "Time", "Sub") && sub.Call.Args[0] == rt.Params[1] && sub.Call.Args[1] == rt.Params[0] {
-					for _, rr := range refs(bo) {
-						if add, ok := rr.(*ssa.Call); ok && callIs(add, "time", "Time", "Add") && add.Call.Args[0] == rt.Params[0] {
-							okHalf = true
-						}
-					}
-				}
-			}
+	found := false
+	allInstrs(fn, func(in ssa.Instruction) {
+		if ret, ok := in.(*ssa.Return); ok && len(ret.Results) == 2 && fromField(ret.Results[0], 0) {
+			found = true
 		}
 	})
-	r.Check(okHalf, "C19.X5-constants", "crypto/spiffe.renewalTime", p.Pos(rt.Pos()), "notBefore + (notAfter-notBefore)/2", "renewalTime is no longer notBefore + (notAfter - notBefore)/2")
-	rot := p.Func("crypto/spiffe", "SPIFFE.runRotation")
-	okMin, okRetry, realClock := false, false, false
-	allInstrs(rot, func(in ssa.Instruction) {
-		call, ok := in.(*ssa.Call)
-		if !ok {
-			return
-		}
-		if obj := calleeObj(call); obj != nil && obj.Pkg() != nil && obj.Pkg().Path() == "time" && (obj.Name() == "After" || obj.Name() == "Now" || obj.Name() == "Sleep" || obj.Name() == "NewTimer") {
-			realClock = true
-		}
-		if obj := calleeObj(call); obj != nil && obj.Name() == "After" && call.Call.IsInvoke() {
-			arg := call.Call.Args[0]
-			if k, ok := arg.(*ssa.Const); ok && k.Value != nil && k.Int64() == 10_000_000_000 {
-				okRetry = true
-			}
-			if mn, ok := arg.(*ssa.Call); ok && builtinName(mn) == "min" {
-				for _, a := range mn.Call.Args {
-					if k, ok := a.(*ssa.Const); ok && k.Value != nil && k.Int64() <= 60_000_000_000 && k.Int64() > 0 {
-						okMin = true
-					}
-				}
-			}
-		}
-	})
-	r.Check(okMin && !realClock, "C19.X5-constants", "crypto/spiffe.SPIFFE.runRotation wake-up", p.Pos(rot.Pos()), "wakes at min(<=1 minute, time to renewal) on the injected clock", "the rotation loop no longer wakes at least every minute on the injected clock (renewal could be requested later than one minute after half-life)")
-	r.Check(okRetry, "C19.X5-constants", "crypto/spiffe.SPIFFE.runRotation retry", p.Pos(rot.Pos()), "failed renewals retried after 10 s", "failed renewals are no longer retried after exactly 10 seconds")
+	return found
 }
 
-// sameCertValue: two values denote the same *x509.Certificate (same SSA
-// value, or loads of the same cell/phi).
-func sameCertValue(a, b ssa.Value) bool {
-	if a == b {
-		return true
+func (x *c19) checkX3() {
+	r, p := x.r, x.p
+	CheckGuardedBy(p, x.e, r, "C19.X3-svid", []GuardSpec{{Field: x.svid, Lock: x.lock}})
+	perFn := map[*ssa.Function]int{}
+	for _, st := range x.svidStores() {
+		fn := st.Parent()
+		perFn[fn]++
+		construct := x.name(fn) + " stores " + x.svid.Field
+		if perFn[fn] > 1 {
+			construct += fmt.Sprintf(" #%d", perFn[fn])
+		}
+		ok, def, why := x.goodSVID(st.Val, st.Block(), 0, map[ssa.Value]bool{})
+		switch {
+		case ok:
+			r.OK("C19.X3-svid", construct, x.pos(st), "stores the SVID of a fetch whose error was checked nil")
+		case def:
+			r.Violation("C19.X3-svid", construct, x.pos(st), x.svid.Field+" is overwritten with something other than the result of a successful fetch ("+why+"): a failed renewal must not disturb the served SVID")
+		default:
+			r.OK("C19.X3-svid", construct, x.pos(st), "store examined")
+			x.undecide("%s at %s: %s — whether only successful fetch results are served is not decided", construct, x.pos(st), why)
+		}
 	}
-	ua, oka := a.(*ssa.UnOp)
-	ub, okb := b.(*ssa.UnOp)
-	if oka && okb && ua.Op == token.MUL && ub.Op == token.MUL {
-		return ua.X == ub.X
+	for _, gx := range x.getters {
+		serves, unknown := x.returnsSVIDField(gx), ""
+		if !serves {
+			allInstrs(gx, func(in ssa.Instruction) {
+				ret, ok := in.(*ssa.Return)
+				if !ok || len(ret.Results) != 2 {
+					return
+				}
+				for _, u := range unspill(ret.Results[0]) {
+					for _, o := range x.origins(u, nil) {
+						switch {
+						case o.kind == "field" && o.fid == x.svid:
+							serves = true
+						case o.kind == "nil" || o.kind == "alloc" || o.kind == "const" || o.kind == "field" || o.kind == "global":
+						default:
+							unknown = o.kind + " " + o.desc
+						}
+					}
+				}
+			})
+		}
+		if !serves && unknown != "" {
+			r.OK("C19.X3-svid", x.name(gx)+" returns", p.Pos(gx.Pos()), "returns examined")
+			x.undecide("%s returns a value of unresolved provenance (%s): whether it serves %s is not decided", x.name(gx), unknown, x.svid)
+			continue
+		}
+		r.Check(serves, "C19.X3-svid", x.name(gx)+" returns", p.Pos(gx.Pos()), "returns "+x.svid.String(), "GetX509SVID no longer returns the current SVID read from "+x.svid.String())
 	}
-	return false
 }
 
 // c18RunWriterAs runs the dir.Write rules of C18 under another property's rule prefix.
